@@ -39,7 +39,7 @@ def falsify(chk, P, count, extra_inputs=()):
     swap_example = None
     for data in extra_inputs:
         r = P.compare_with_reference(data)
-        if r and r['kind'] != 'ctxt-swap':
+        if r:
             return dict(r, file_hex=data.hex(), source='correspondence disagreement'), swap_example, stats
     files = P.wellformed_files(rng, count, bad_bytes=0.05)
     for data, cat, lay, charset, style in files:
@@ -79,12 +79,11 @@ def falsify(chk, P, count, extra_inputs=()):
         if got != exp:
             if got == swap(exp):
                 stats['ctxt_swap_seen'] += 1
-                if swap_example is None:
-                    swap_example = dict(base, kind='ctxt-swap', observed=repr(got)[:500], expected=repr(exp)[:500])
+                return dict(base, kind='ctxt-swap', observed=repr(got)[:500], expected=repr(exp)[:500]), swap_example, stats
             else:
                 return dict(base, kind='entries-differ', observed=repr(got)[:800], expected=repr(exp)[:800]), swap_example, stats
         r = P.compare_with_reference(data)          # (b) the independent reader, from the bytes alone
-        if r and r['kind'] != 'ctxt-swap':
+        if r:
             return dict(base, **r), swap_example, stats
     return None, swap_example, stats
 
@@ -145,11 +144,10 @@ def main():
         got = P.entries_of(v)
         witness_state = 'still-failing' if got == [('i', 'c', None, ['s'])] else ('resolved' if got == [('c', 'i', None, ['s'])] else 'other: ' + repr(got))
     chk.coverage['falsifier'] = dict(stats, empty_file_runs=tried2, found=(cex or cex2) is not None, known_witness=witness_state)
-    if witness_state == 'still-failing' or swap_example is not None:
-        rep = swap_example or {'kind': 'ctxt-swap', 'file_hex': WITNESS.hex(), 'observed': "msgid='c', msgctxt='i'", 'expected': "msgctxt='c', msgid='i'"}
-        chk.violation('msgctxt and msgid of an MO entry with a context are exchanged (lib/moparser.py:155)', rep, key='ctxt-swap')
-    if witness_state == 'resolved':
-        print('KNOWN-FINDING-RESOLVED: property=C08 ctxt-swap no longer reproduces on the real code; the model must be brought up to date')
+    if witness_state != 'resolved' and not cex:
+        # the defect repaired by the fix: commit 8953e21 (a `fixed` entry suppresses nothing)
+        rep = {'kind': 'ctxt-swap', 'file_hex': WITNESS.hex(), 'observed': witness_state, 'expected': "msgctxt='c', msgid='i'"}
+        chk.violation('msgctxt and msgid of an MO entry with a context are not loaded as encoded (lib/moparser.py:155)', rep, key='ctxt-swap')
     for c in (cex, cex2):
         if c is not None:
             chk.violation('a well-formed MO file does not load to the catalog it encodes', c, key=c.get('kind'))
@@ -166,9 +164,8 @@ def main():
                  'text decoding is a parameter (CodecDB); the driver instantiates ASCII, ISO-8859-1, UTF-8 and single-byte charmaps (tables read from Python); '
                  'files whose charset needs another codec family are skipped in the stream and counted',
                  'findCharset is the model\'s reading of re.search(b"charset=([^ \\t\\n]+)") and is shared by spec and model'],
-        explanation='Proved for all byte strings and codec databases: parse_of_encodes_as_coded (every byte string satisfying Encodes parses to the catalog, file order, '
-                    'charset of the header entry, hidden flag - with msgctxt/msgid exchanged), parse_of_encodes_partial (C08 as stated for catalogs without contexts), '
-                    'parse_of_encodes_refuted (C08 as stated is FALSE of the code: 42-byte witness, recorded as known finding ctxt-swap), hidden_flag, '
+        explanation='Proved for all byte strings and codec databases: parse_of_encodes (every byte string satisfying Encodes parses to the catalog: msgctxt, msgid, plural, forms, file order, '
+                    'charset of the header entry, hidden flag), parse_serialize, witness_parse (the 42-byte file that refuted the statement before the fix: commit 8953e21), hidden_flag, '
                     'hidden_suppresses_empty_file, unflagged_empty_is_reported, serialize_encodes (a family of layouts satisfies Encodes). '
                     'The empty-file decision is a 5-line model tied only by the falsifier (full Checker.check on message-less files).')
 
